@@ -25,6 +25,10 @@ func main() {
 		os.Exit(runConcrete(os.Args[2:]))
 	case "difftest":
 		os.Exit(runDiff(0))
+	case "tokens":
+		for _, r := range tokenTable() {
+			fmt.Println(r)
+		}
 	case "mapranges":
 		listMapRanges()
 	case "replay":
